@@ -81,7 +81,7 @@ PROPS["C11"] = {
     "quick": {"shards": 8, "budget_s": 20, "max_restarts": 30},
     "thorough": {"shards": 16, "budget_s": 300, "max_restarts": 60},
     "floor": {"quick": 3000, "thorough": 50000},
-    "require_counters": {"quick": {"decoded_ok": 3000, "validated_ok": 500, "emitted_containers_ok": 4, "emitted_corpus_programs_ok": 150},
+    "require_counters": {"quick": {"decoded_ok": 3000, "validated_ok": 500, "emitted_containers_ok": 4, "emitted_corpus_programs_ok": 300},
                          "thorough": {"decoded_ok": 50000, "validated_ok": 5000}},
     "rule": "seed containers = compiler output for 4 embedded programs (tasks, FBs, structs, enums, OOP, I/O). Mutants: every 4-byte-aligned "
             "offset x 8 hostile u32 values with the CRC recomputed (systematic for containers <= 3000 B; all seeds in thorough), truncation at "
@@ -93,7 +93,7 @@ PROPS["C11"] = {
                   "a counting allocator (peak <= 64*|b| + 1 MiB, single request <= 1 GiB); containers that validate are then applied to a runtime "
                   "built from the seed program. Emitted containers must validate, re-encode bit-exactly and apply. Panics are caught, aborts and "
                   "stack overflows are attributed through the case journal.",
-    "level_note": "The emitted-container clause is also checked over a corpus: 15 programs whose first statement is a WHILE / REPEAT / FOR / IF / CASE (in a program, an FB and a function), every .st file of /repo the harness accepts and 400 (thorough 4000) generated programs must be emitted, validate, re-encode bit-exactly and apply. apply_bytecode_bytes is not exercised for containers declaring a process image above 64 MiB per area (allocating what the "
+    "level_note": "Emitted corpus additions (round d): 9 condition shapes x 7 loop/branch statements x 1-3 body statements as the LAST statement of a program, FB and function (constructs the encoder rolls back). The emitted-container clause is also checked over a corpus: 15 programs whose first statement is a WHILE / REPEAT / FOR / IF / CASE (in a program, an FB and a function), every .st file of /repo the harness accepts and 400 (thorough 4000) generated programs must be emitted, validate, re-encode bit-exactly and apply. apply_bytecode_bytes is not exercised for containers declaring a process image above 64 MiB per area (allocating what the "
                   "container legitimately asks for is outside the O(|b|) clause and would exhaust the machine); counted in observed.apply_skipped_image_over_64MiB.",
     "assumptions": ["memory budget 64 bytes per input byte + 1 MiB for decode+validate+metadata",
                     "apply only observed on the four seed runtimes"],
@@ -107,7 +107,7 @@ PROPS["C07"] = {
     "quick": {"shards": 8, "budget_s": 15},
     "thorough": {"shards": 16, "budget_s": 240},
     "floor": {"quick": 1000, "thorough": 20000},
-    "require_counters": {"quick": {"cycles_checked": 5000, "direct_address_cells_checked": 17000, "faulted_cycles_checked": 200, "idle_cycles_checked": 1000},
+    "require_counters": {"quick": {"output_image_bytes_overwritten_between_cycles": 1000, "cycles_checked": 5000, "direct_address_cells_checked": 17000, "faulted_cycles_checked": 200, "idle_cycles_checked": 1000},
                          "thorough": {"cycles_checked": 200000}},
     "rule": "case = binding set (1-5 %I, 1-5 %Q, 0-2 %M bindings; sizes X/B/W/D/L at offsets incl. 0 and the image end; every type of that size; "
             "global or program-level AT; 20% allow overlapping %Q) x 2-7 cycles of random driver input bytes and output stimuli, optionally ending in a "
@@ -119,7 +119,7 @@ PROPS["C07"] = {
                   "input-bound variable in the first task and in the last background program equals decode(latched bytes); every bit of the %Q/%M image "
                   "either encodes the final value of a covering binding or is unchanged; drivers received exactly the final image; a faulted cycle publishes "
                   "nothing. Direct-address read/write locality is swept exhaustively on a bare IoInterface.",
-    "level_note": "Trusted: the 60-line image model in harness/src/engines/c07.rs. With overlapping %Q bindings any covering binding's encoding is accepted per bit.",
+    "level_note": "Workload additions (round d): a third of the cycles assign the previous values again; before a quarter of the cycles 1-3 output image bytes are overwritten through the I/O interface and must be published from the variables again. Trusted: the 60-line image model in harness/src/engines/c07.rs. With overlapping %Q bindings any covering binding's encoding is accepted per bit.",
     "assumptions": ["process image pre-sized to 32 bytes per area (as bytecode resource metadata would)", "driver i owns input bytes [16i,16i+16)"],
     "coverage_extra": {"exhaustive_subspace": "direct-address sweep (observed.direct_address_cells_checked) is complete for byte offsets 0..15"},
     "design_ref": "DESIGN.md section 8 (as built; plan in section 3), C07",
@@ -177,7 +177,7 @@ PROPS["C18"] = {
     "quick": {"shards": 8, "budget_s": 25, "watchdog_s": 400},
     "thorough": {"shards": 16, "budget_s": 600, "watchdog_s": 3000},
     "floor": {"quick": 2000, "thorough": 10000},
-    "require_counters": {"quick": {"replies_checked": 3000, "requests_with_effect": 150, "requests_refused": 1000, "malformed_lines_survived": 19},
+    "require_counters": {"quick": {"endpoints_with_pairing_store_read_back_from_file": 10, "replies_checked": 3000, "requests_with_effect": 150, "requests_refused": 1000, "malformed_lines_survived": 19},
                          "thorough": {"replies_checked": 12000}},
     "rule": "request types are scraped at check time from the working tree (match arms of control/handlers/*.rs plus the literals of the role table and the debug-class "
             "list) plus unknown/garbled names; x 9 credentials {none, wrong, admin token, pairing viewer/operator/engineer, expired, revoked, revoked twin = a token sharing its per-second id with another one} x 13 endpoint configs "
@@ -189,7 +189,7 @@ PROPS["C18"] = {
                   "shows an effect under the admin credential must be refused for the viewer token; with a token configured and no valid credential nothing changes, the reply has "
                   "only id/ok/error and contains no planted marker; debug-class types (dispatcher files debug.rs/variables.rs) are refused while debugging is disabled; 19 malformed "
                   "lines each get an error reply and the next valid request is served.",
-    "level_note": "hmi.write is exercised for its role check only (the default HMI customization is read-only, so its effect is never reached). Queued/forced writes are observed by "
+    "level_note": "Every other endpoint is built on a pairing store read back from its file after the credentials were issued, expired and revoked (a restarted runtime). hmi.write is exercised for its role check only (the default HMI customization is read-only, so its effect is never reached). Queued/forced writes are observed by "
                   "cycling a statement-free probe runtime attached to the same DebugControl. shutdown is observed on a real resource thread held at its start gate.",
     "assumptions": ["pairing never issues admin tokens (requested admin is capped to engineer) - taken from observation of the store, used only to rank credentials"],
     "design_ref": "DESIGN.md section 8 (as built; plan in section 3), C18",
@@ -215,7 +215,7 @@ PROPS["C19"] = {
                   "replies for text and names of outside and hidden files; only non-hidden paths under the project may change, and only for an editor session with writing enabled. "
                   "Lost updates are decided offline: successes ordered by returned version must each be based on the content written by the previous success, no two share a version, "
                   "and disk and a fresh open_source equal the last success.",
-    "level_note": "set_active_project / browse_directory are project-selection features outside the listed file operations and are not called. Session expiry uses hook H4 (injected clock).",
+    "level_note": "Round d: the sentinel tree has a link to a hidden directory of the project itself; the part B bystander renames prefix-sharing directories away and back. Not modelled: delete + re-create of a tracked file by a writer (the version counter restarts at 1 - reported by a sub-agent, see DESIGN 7.4). set_active_project / browse_directory are project-selection features outside the listed file operations and are not called. Session expiry uses hook H4 (injected clock).",
     "assumptions": ["the snapshot walker and the marker strings are the trusted base", "writers re-open after every attempt (well-behaved optimistic clients)"],
     "design_ref": "DESIGN.md section 8 (as built; plan in section 3), C19",
 }
@@ -346,7 +346,7 @@ PROPS["C13"] = {
     "level_text": "After every op (quick: every 3rd and the last) every file's answers from the long-lived database are compared with a brand-new database loaded with the same texts under the same "
                   "FileIds: diagnostics as a sorted multiset (code, severity, range, message, related), symbols canonicalised to (qualified name, kind, type name, range, imported?), the type name of "
                   "the expression at every 3rd offset, and analyze() summaries; every query batch is issued twice (idempotence). Raw SymbolId/TypeId numbers are never compared.",
-    "level_note": "Eight file slots: five roles (functions, program, FB, types, configuration) and three second providers of the same global names with other signatures; the initial project is loaded in random id order and each comparison also checks that a brand-new database loaded in descending order answers like the one loaded ascending. The fresh database is loaded in ascending FileId order. The LSP document store above the database is covered by C14.",
+    "level_note": "Pool additions (round d): library variants that differ only in the EXTENDS / IMPLEMENTS target (equal length) and a dependent that uses inherited members and an interface assignment. Eight file slots: five roles (functions, program, FB, types, configuration) and three second providers of the same global names with other signatures; the initial project is loaded in random id order and each comparison also checks that a brand-new database loaded in descending order answers like the one loaded ascending. The fresh database is loaded in ascending FileId order. The LSP document store above the database is covered by C14.",
     "assumptions": ["TRUST_HIR_SALSA_EVENT_METRICS=1 only enables counters; it does not change query results"],
     "design_ref": "DESIGN.md section 8 (as built; plan in section 3), C13",
 }
@@ -359,14 +359,14 @@ PROPS["C14"] = {
     "quick": {"shards": 8, "budget_s": 30, "watchdog_s": 900},
     "thorough": {"shards": 16, "budget_s": 420, "watchdog_s": 3600},
     "floor": {"quick": 150, "thorough": 1200},
-    "require_counters": {"quick": {"answers_compared": 1500, "positions_validated_on_editor_text": 8000, "prepare_rename_round_trips": 1500, "histories_editing_after_non_ascii": 100}, "thorough": {"answers_compared": 10000}},
+    "require_counters": {"quick": {"watched_file_events_for_open_documents": 150, "answers_compared": 1500, "positions_validated_on_editor_text": 8000, "prepare_rename_round_trips": 1500, "histories_editing_after_non_ascii": 100}, "thorough": {"answers_compared": 10000}},
     "rule": "initial texts: 5 base programs (incl. a CRLF one) salted with Latin-1, CJK, BMP symbols and astral emoji in comments, pragmas and strings placed *before* code on the same line; 1-30 "
             "didChange notifications of 1-3 incremental changes each (insert/delete/replace on valid UTF-16 boundaries, biased to positions right after a wide character, CRLF inserts, occasional "
             "full-text change). distinct = the history; non-trivial = >= 1 incremental change on a line whose prefix is non-ASCII, or >= 3 changes",
     "level_text": "O1: formatting, semanticTokens/full, documentSymbol, pull diagnostics, foldingRange and hovers of the server that received the changes must equal those of a second server that got the "
                   "editor's final text in one didOpen. O2: every range in those answers must lie on character boundaries of the editor's text measured in UTF-16 units, semantic tokens must not be empty or "
                   "split a surrogate pair, documentSymbol selection ranges must cover the symbol's name. O3: prepareRename at every identifier start returns exactly that identifier's range.",
-    "level_note": "Only valid ranges are sent (what a conforming editor sends). The server binary is the workspace's trust-lsp built from the working tree into /verif/target/repo.",
+    "level_note": "Workload additions (round d): a third of the documents exist as files holding the text at open time; workspace/didChangeWatchedFiles (created/changed) notifications for the open document arrive between the changes. Deleted events are not sent. Only valid ranges are sent (what a conforming editor sends). The server binary is the workspace's trust-lsp built from the working tree into /verif/target/repo.",
     "assumptions": ["the UTF-16 editor model in harness/src/lsp.rs (lines split on LF, CR belongs to the terminator) is the trusted base"],
     "design_ref": "DESIGN.md section 8 (as built; plan in section 3), C14",
 }
@@ -387,7 +387,7 @@ PROPS["C15"] = {
     "level_text": "For each (text, config): full formatting -> non-trivia tokens equal (keywords case-insensitively, everything else byte-exact), comments/pragmas/string literals equal and in order; "
                   "formatting the result again changes nothing; 3 random line ranges through rangeFormatting and 3 on-type positions (after ';' and newline) -> the returned edits must apply on "
                   "character boundaries, not overlap, and preserve the same token sequence.",
-    "level_note": "Comments are compared line-wise with surrounding blanks trimmed (re-indenting continuation lines of a block comment is layout). Vendor profiles need a workspace config file and are not exercised.",
+    "level_note": "Text class `composed` (round d): statement lists drawn from long comma lists, assignments of different widths, commented-out assignments, pragmas and string literals containing := / =>, nested in IFs. Comments are compared line-wise with surrounding blanks trimmed (re-indenting continuation lines of a block comment is layout). Vendor profiles need a workspace config file and are not exercised.",
     "assumptions": ["trust_syntax::lex is the token oracle (its own totality/losslessness is C12)"],
     "design_ref": "DESIGN.md section 8 (as built; plan in section 3), C15",
 }
@@ -407,7 +407,7 @@ PROPS["C16"] = {
     "level_text": "rename must refuse, or: every edit is in bounds, non-overlapping and replaces an occurrence of the old identifier; the edited project has the same diagnostics (code, mapped position, "
                   "message with the name normalised); every renamed occurrence and every pre-existing occurrence of the new name resolves (goto_definition) to the same declaration as before; if the "
                   "project builds, the renamed one builds and 3 cycles give the same storage walk modulo the renamed key; renaming back at the mapped position restores the text.",
-    "level_note": "goto_definition is trusted only for occurrences the rename is about (renamed ones and same-named ones). Behaviour is not compared when the new name already exists elsewhere in the project "
+    "level_note": "New names (round d): every existing name is also offered in another letter case than the project spells it (class existing-name-in-another-case). goto_definition is trusted only for occurrences the rename is about (renamed ones and same-named ones). Behaviour is not compared when the new name already exists elsewhere in the project "
                   "(name-neutral comparison would be ambiguous); capture is then decided by the binding map and diagnostics.",
     "assumptions": ["projects are error-free before the rename (others are skipped and counted)"],
     "design_ref": "DESIGN.md section 8 (as built; plan in section 3), C16",
@@ -421,7 +421,7 @@ PROPS["C17"] = {
     "quick": {"shards": 8, "budget_s": 20, "watchdog_s": 600},
     "thorough": {"shards": 16, "budget_s": 600, "watchdog_s": 3000},
     "floor": {"quick": 3000, "thorough": 100000},
-    "require_counters": {"quick": {"stops": 10000, "resume_actions_while_stopped": 10000, "step_semantics_checked": 1000, "cycles_compared_with_undebugged_run": 10000, "trace_events_checked": 1000000, "write_force_cycles_compared_with_boundary_model": 5000,
+    "require_counters": {"quick": {"debug_expressions_accepted_and_attached": 2000, "stops": 10000, "resume_actions_while_stopped": 10000, "step_semantics_checked": 1000, "cycles_compared_with_undebugged_run": 10000, "trace_events_checked": 1000000, "write_force_cycles_compared_with_boundary_model": 5000,
                                    "dap_sessions": 40, "dap_stopped_events": 250, "dap_blocked_states_announced": 100, "dap_stop_locations_compared": 100, "dap_final_pause_stops": 40},
                          "thorough": {"stops": 1000000, "step_semantics_checked": 100000}},
     "rule": "program with a 4-deep call chain (PROGRAM -> FB -> FUNCTION with FOR loop -> FUNCTION), a WHILE loop, two cyclic tasks sharing a global and a background program, run for 2-12 cycles; "
@@ -433,7 +433,7 @@ PROPS["C17"] = {
                   "stop channel; (2) a step issued while stopped and aimed at the stopped thread: StepIn stops at that thread's very next statement visit, StepOver/StepOut never at a larger call "
                   "depth than the origin; (3) after Continue/Step the thread writes a new trace line or finishes within 3 s, and after the script a janitor (clear breakpoints + Continue every ms) "
                   "must see the thread finish - no completed cycle for 5 s is a wedge; (4) per-cycle digests of all storage equal the undebugged run.",
-    "level_note": "Part B (every fourth shard, harness/src/engines/c17dap.rs) drives the trust-debug binary over stdio as a DAP client: random continue / pause / next / stepIn / stepOut with "
+    "level_note": "Script additions (round d): conditional breakpoints and logpoints from a pool of 14 expressions (pure; user calls directly, nested in and following allowed calls; SPLIT_DATE with output arguments) compiled by the product's parse_debug_expression; accepted ones are attached and the transparency oracle applies. Part B (every fourth shard, harness/src/engines/c17dap.rs) drives the trust-debug binary over stdio as a DAP client: random continue / pause / next / stepIn / stepOut with "
                   "thread ids and setBreakpoints with changing line sets on a two-task program paced in real time; the adapter process inherits ST_DEBUG_TRACE, so the trace tells whether the "
                   "cycle thread is blocked. At quiescent points a blocked thread must have been announced by a `stopped` event that arrived after the last resume request (else: execution "
                   "stopped without notification), the top stack frame must be on the line of the runtime's stop location, and at the end clear-breakpoints + continue + pause must yield a "
@@ -451,7 +451,7 @@ PROPS["C20"] = {
     "quick": {"shards": 8, "budget_s": 25, "watchdog_s": 600},
     "thorough": {"shards": 16, "budget_s": 600, "watchdog_s": 3000},
     "floor": {"quick": 800, "thorough": 20000},
-    "require_counters": {"quick": {"cycles_executed": 1000000, "pause_episodes_verified_cycle_free": 5000, "resumes_followed_by_a_cycle": 1500, "stops_verified": 2500, "stops_at_closed_gate": 300,
+    "require_counters": {"quick": {"stops_followed_by_clock_ticks": 300, "cycles_executed": 1000000, "pause_episodes_verified_cycle_free": 5000, "resumes_followed_by_a_cycle": 1500, "stops_verified": 2500, "stops_at_closed_gate": 300,
                                    "quiescent_conservation_checks": 4000, "online_bracket_checks": 5000000, "samples_with_two_resources_advancing": 20000, "faults_isolated": 200},
                          "thorough": {"cycles_executed": 20000000, "stops_verified": 60000}},
     "rule": "trial = N in 2..4 resources, each with interval {0 (free running), 1 ms}, own or common ManualClock, start gate (1/4), spin between the paired writes {0,3,30}, at most one resource "
@@ -464,7 +464,7 @@ PROPS["C20"] = {
                   "Running and a further cycle within the watchdog. Stop (from Running, Paused, sleeping on the clock, waiting at the gate): join returns, state Stopped, exactly one retain "
                   "store call whose keepg equals the cycles executed (0 or 1 calls for a resource that never passed its gate). Fault: the faulting resource never cycles past its fault, another "
                   "running resource does cycle afterwards, no resource thread panics.",
-    "level_note": "Interleavings are those the OS scheduler produces under the perturbations, not all. 10-15 s watchdogs guard operations that need microseconds. The single-resource loop "
+    "level_note": "Round d: half of the stop requests are followed at once by three 1 ns clock advances before join(). Interleavings are those the OS scheduler produces under the perturbations, not all. 10-15 s watchdogs guard operations that need microseconds. The single-resource loop "
                   "(run_resource_loop without shared globals) has the same command/stop structure and is not driven separately. StdClock/ScaledClock resources are not driven.",
     "assumptions": ["SharedGlobals::get and ResourceControl::state are the observation boundary", "ResourceCommand::Snapshot is answered in command order (it is handled in the same drain loop)"],
     "env": {},
